@@ -200,7 +200,7 @@ def judge(ctx, vectors, canaries=True):
     rej = ctx.validate_vectors("Trace_Cli", [{k: v for k, v in x.items() if k not in ("argv", "capflag", "fan_raw_without_custom_capability")} for x in vectors + cans])
     n = len(vectors)
     if canaries and len({i for i, _ in rej if i >= n}) != len(cans):
-        raise MachineryError("Trace_Cli accepted a canary")
+        ctx.defer_machinery("Trace_Cli accepted a canary")
     ctx.extra["canaries_rejected"] = len(cans)
     for i, clause in rej:
         if i < n:
